@@ -61,3 +61,27 @@ def check(run):
     run.cov["proofs_generated"] = proved
     run.rules.append("real end-to-end runs: leaf positions {0, 1, 2^19-1, 2^19, 2^20-1, random}, limits {1, 2, 100, 2^16}, message ids {0, limit-1}, secrets / external nullifiers in {0, 1, p-1, random}, signals of length 0/1/136/1000+, other leaves arbitrary, through generate_rln_proof, generate_rln_proof_with_witness (witness from get_serialized_rln_witness), prove + assembled message, and an externally computed witness vector fed to generate_proof_with_witness; each message then through verify, verify_rln_proof and verify_with_roots (with the root, with a set containing it, with the empty set); distinct = distinct request")
     run.differential("prove-then-verify", seqs, canon=rlngen.canon_prove, spec_canon=rlngen.spec_verdict, shrink=False)
+    # ---- a member stays a member: prove + verify on the same instance, then the tree changes around the member through every
+    #      mutator of the API (single writes, appends, deletions, range writes, batches with removals — contiguous removal
+    #      indices, for which the persistent backend's open batch finding has no effect), then the SAME member proves again.
+    #      Anything remembered from the first proof (a cached path, a cached root) must not survive the update.
+    hseqs = []
+    for k in range(4 if quick else 40):
+        secret, limit = rand_fr(rng), rng.choice([2, 100])
+        index = rng.choice([5, 6, 9, 40])
+        M = rlngen.Member(zkh, secret, limit, index)
+        others = [(i, rand_fr(rng)) for i in range(0, 12) if i != index]
+        seq = M.setup(others)
+        ext, signal = rand_fr(rng), bytes(rng.getrandbits(8) for _ in range(5))
+        muts = [f"rln atomic 0x0 - 0x1,0x2", f"rln atomic 0x0 - 0x3", f"rln set_leaf 0x1 {hex(rand_fr(rng))}", f"rln delete 0x2",
+                f"rln set_next {hex(rand_fr(rng))}", f"rln set_leaves_from 0xc {hex(rand_fr(rng))},{hex(rand_fr(rng))}",
+                f"rln atomic 0xc {hex(rand_fr(rng))} -", f"rln atomic 0x0 - 0xa,0xb"]
+        rng.shuffle(muts)
+        for j, mu in enumerate(muts[: (3 if quick else 6)]):
+            req = rlngen.prove_request(secret, index, limit, j % limit, ext, signal)
+            seq += [f"rln prove_verify {hx(req)} {hx(signal)}", mu, "rln root"]
+        req = rlngen.prove_request(secret, index, limit, (limit - 1), ext, signal)
+        seq += [f"rln prove_verify {hx(req)} {hx(signal)}", f"rln get_proof {hex(index)}"]
+        hseqs.append(seq)
+    run.rules.append("membership histories: the same registered member proves and verifies on one instance before and after every kind of tree update around it (single write, append, deletion, range write, batch with one or two removal indices); distinct = distinct history")
+    run.differential("member-stays-member", hseqs, canon=lambda l, x: x, spec_canon=lambda l, x: x, shrink=False)
